@@ -274,6 +274,10 @@ func (re *Regexp) FindStringMatchStartingAt(s string, startAt int) (*Match, erro
 
 // FindRunesMatchStartingAt searches the input rune slice for a Regexp match starting at the startAt index
 func (re *Regexp) FindRunesMatchStartingAt(r []rune, startAt int) (*Match, error) {
+	if startAt > len(r) {
+		// same argument error as the string variant, instead of indexing past the input
+		return nil, errStringStartAtTooLarge
+	}
 	return re.run(false, startAt, -1, r, newMatchText(r))
 }
 
